@@ -104,6 +104,7 @@ func (f *Fetcher) processQueue(ctx context.Context, hashes []cid.Cid) []iface.IP
 	f.addHashesToQueue(queue, hashes...)
 	taskInProgress := 0
 	for queue.Len() > 0 {
+		verifFetch(f, "acquire", cid.Undef, queue, results, taskInProgress, true)
 		// acquire a process slot limited by concurrency limit
 		if err := f.acquireProcessSlot(ctx); err != nil {
 			// @FIXME(gfanton): log this
@@ -114,6 +115,7 @@ func (f *Fetcher) processQueue(ctx context.Context, hashes []cid.Cid) []iface.IP
 		// get next hash
 		hash := queue.Next()
 		f.tasksCache[hash] = taskKindInProgress
+		verifFetch(f, "launch", hash, queue, results, taskInProgress, true)
 
 		// run process
 		go func(hash cid.Cid) {
@@ -125,6 +127,7 @@ func (f *Fetcher) processQueue(ctx context.Context, hashes []cid.Cid) []iface.IP
 
 			// free process slot
 			f.processDone()
+			verifFetch(f, "fetched", hash, nil, nil, 0, entry != nil)
 
 			f.muProcess.Lock()
 
@@ -160,6 +163,7 @@ func (f *Fetcher) processQueue(ctx context.Context, hashes []cid.Cid) []iface.IP
 
 			// mark this process as done
 			taskInProgress--
+			verifFetch(f, "processed", hash, queue, results, taskInProgress, entry != nil)
 
 			// signal that a slot is available
 			f.condProcess.Signal()
@@ -172,14 +176,20 @@ func (f *Fetcher) processQueue(ctx context.Context, hashes []cid.Cid) []iface.IP
 
 		// wait until a task is added or that no running task is in progress
 		for queue.Len() == 0 && taskInProgress > 0 {
+			verifFetch(f, "wait", cid.Undef, queue, results, taskInProgress, true)
 			f.condProcess.Wait()
+			verifFetch(f, "woken", cid.Undef, queue, results, taskInProgress, true)
 		}
 	}
 
 	// wait until all process are done/canceled
 	for taskInProgress > 0 {
+		verifFetch(f, "wait", cid.Undef, queue, results, taskInProgress, true)
 		f.condProcess.Wait()
+		verifFetch(f, "woken", cid.Undef, queue, results, taskInProgress, true)
 	}
+
+	verifFetch(f, "done", cid.Undef, queue, results, taskInProgress, true)
 
 	f.muProcess.Unlock()
 
